@@ -6,7 +6,10 @@ valid by construction (the server must accept it) - invalid classes live in davg
 import datetime
 
 WORDS = ["Meeting", "Lunch", "Zoë", "naïve café", "日本語", "a,b", "semi;colon", "back\\slash", "line\nbreak",
-         "quote\"d", "colon:ed", "tab\there", "x" * 90, "émoji ☃", "trailing space ", "=equals=", "#hash", "%percent"]
+         "quote\"d", "colon:ed", "tab\there", "x" * 90, "émoji ☃", "trailing space ", "=equals=", "#hash", "%percent",
+         # beyond the basic multilingual plane (4-octet UTF-8), XML-significant characters, bidi / combining marks
+         "party \U0001F382\U0001F389", "clef \U0001D11E", "ext-B \U00020000", "<tag> & \"amp\" ]]>", "e\u0301 \u200f rtl",
+         "\ufffd replacement", "nbsp\u00a0end"]
 TZIDS = ["Europe/Berlin", "America/New_York"]
 
 VTIMEZONE = {
